@@ -184,6 +184,13 @@ def check_C07(ctx):
     def cmp_table():
         im = pdb.trait_impl("core::convert::From", HRANK, ["u16"])
         frm = ctx.summ(im["items"]["from"], [("v", v)]).ret
+        ctx.check_shadow(HRANK, "from", "core::convert::From", im["items"]["from"], None)
+        # the ranks that are compared are what the conversion stores: the value itself, its name and its class
+        fields_ = [f["name"] for f in pdb.adt(HRANK)["variants"][0]["fields"]]
+        want_ = {"value": v, "name": dn, "class": dc}
+        for i_, fname_ in enumerate(fields_):
+            if fname_ in want_ and frm[0] == "agg":
+                rep.ob("C07.from-wiring", fname_, frm[2][i_] is want_[fname_], "HandRank::from(v).%s is not %s of the same v" % (fname_, {"value": "v", "name": "determine_name", "class": "determine_class"}[fname_]), pdb.where(im["items"]["from"]))
         a, b = atom("a", "u16"), atom("b", "u16")
         ra = substitute(frm, lambda nd: a if nd is v else None)
         rb = substitute(frm, lambda nd: b if nd is v else None)
@@ -200,6 +207,20 @@ def check_C07(ctx):
         seen_ = set()
         # (panic sites of cmp are part of what is tabulated: their constants split the cells too)
         roots = [dag] + [c for o in smc.obligations if not (o.cond[0] == "c" and o.cond[1]) for c in (o.cond,) + tuple(o.pc)]
+        # overridden operators / max / min / hand-written equality are tabulated on the same representatives: their
+        # constants cut cells too
+        po_ = pdb.trait_impl("core::cmp::PartialOrd", HRANK)
+        eq_ = pdb.trait_impl("core::cmp::PartialEq", HRANK)
+        for im_, skip_, kind_ in ((po_, {"partial_cmp"}, "r"), (ord_im, {"cmp"}, "v"), (eq_ if eq_ is not None and not eq_["derived"] else None, set(), "r")):
+            if im_ is None:
+                continue
+            for nm_ in sorted(set(im_["items"]) - skip_):
+                try:
+                    sm_o = ctx.summ(im_["items"][nm_], [(kind_ if nm_ in ("max", "min", "clamp") else "r", ra), (kind_ if nm_ in ("max", "min", "clamp") else "r", rb)])
+                except Uncertified:
+                    continue
+                roots.append(sm_o.ret)
+                roots.extend(c for o in sm_o.obligations if not (o.cond[0] == "c" and o.cond[1]) for c in (o.cond,) + tuple(o.pc))
         for root in roots:
             for x in walk(root, seen_):
                 for ch in children(x):
@@ -371,6 +392,10 @@ def key_structured_cmp(ctx, dag, a, b, kcmp):
     g = substitute(dag, lambda nd: xa if nd is KA else (xb if nd is KB else None))
     if set(atoms_of(g)) - {"$ka", "$kb"}:
         return "the result reads the ranks outside the keys"
+    from .rank import value_use
+    kconsts, kwhy = value_use([g], {"$ka", "$kb"})
+    if kwhy is not None or kconsts:
+        return "the keys are not merely compared with each other (%s)" % (kwhy or "compared with constant(s) %s" % sorted(kconsts)[:3])
     sign = {"Less": -1, "Equal": 0, "Greater": 1}
     rel = {}
     for (x, y) in ((1, 2), (2, 2), (2, 1)):
